@@ -1,10 +1,47 @@
+_NOTE = ("trusted base: the independent oracles in pvmon/oracles.py (closed-form geometry, published limiter forms), numpy/scipy "
+         "(spsolve inside the spy solver), the seeded generators; exploration covers only the generated executions listed in the "
+         "evidence file (small grids, N<=6 per axis; width ratios <=50), 'held' never means proved")
+
 CHECKS = [
+ {"id": "C01", "ref": "DESIGN.md 3/C01",
+  "technique": "runtime monitoring: flux-telescoping monitor on real term matrices (full basis) + integral-over-time monitor on solver histories via spy solver",
+  "text": "Operator level: V-weighted column sums of the interior rows of every flux-form term (diffusion, central, upwind, divergence, TVD) are compared with the oracle's boundary-flux functional on the full basis of unit fields, so interior-face cancellation is decided for every field on the generated grids. Solver level: 1-5 implicit/explicit steps in closed systems (periodic / walls) and one-step open systems, tolerance derived from the captured system. Known findings (SphericalGrid3D measure, upwind across periodic boundary) are classified by re-running the discriminating experiment.",
+  "note": _NOTE},
+ {"id": "C03", "ref": "DESIGN.md 3/C03",
+  "technique": "runtime monitoring: post-condition monitor on ghost layers after each (re)computation + boundary-row consistency + (a,b,c)-scale invariance via spy solver",
+  "text": "After construction (both styles), apply_BCs, copy, solvePDE and solveExplicitPDE every boundary face is checked against a*dphi/dn (with 1/r, 1/(r sin theta)) + b*phi = c from the oracle metric; periodic axes (flag on left only / right only / both, every subset of axes) must wrap bitwise and non-periodic ones must not; boundaryConditionsTerm rows must vanish on the reported values; plotprofile boundary entries; scaling (a,b,c) must leave the captured system's solution unchanged.",
+  "note": _NOTE},
+ {"id": "C05", "ref": "DESIGN.md 3/C05",
+  "technique": "runtime monitoring: entrywise comparison of real term matrices with the real explicit chain evaluated on the full basis of unit fields; TVD identities per limiter",
+  "text": "For every generated grid and coefficient/velocity field (all sign patterns, exact zeros) the interior rows of diffusionTerm / convectionTerm / convectionUpwindTerm(u[,u_upwind]) are compared entry by entry with divergenceTerm(D*gradientTerm), divergenceTerm(u*linearMean), divergenceTerm(u*upwindMean) built on the full basis incl. ghost cells - i.e. decided for every field on those grids. TVD: zero limiter => exactly zero, unit limiter on uniform grids => central operator, and flux form for all 16 limiters.",
+  "note": _NOTE},
+ {"id": "C06", "ref": "DESIGN.md 3/C06",
+  "technique": "runtime monitoring: operator identities on constant fields + steady-state residual monitor through solvePDE with spy solver in discretely divergence-free flows",
+  "text": "diffusionTerm*const = 0, central/upwind*const = c*divergenceTerm(u), TVD(const)=0 for all limiters with every velocity sign pattern; uniform field with matching Dirichlet/no-flux/Robin/periodic sides in stream-function / radial / uniform divergence-free flows plugged into the system solvePDE assembled (residual) and compared directly when well conditioned, dt over 12 decades; source terms alone give gamma/beta and are diagonal.",
+  "note": _NOTE},
  {"id": "C10", "ref": "DESIGN.md 3/C10",
   "technique": "runtime monitoring: class-invariant monitor on every mesh construction vs closed-form geometric oracle",
-  "text": "Every mesh constructed by the workload (9 classes x both constructor forms x seeded face families incl. r0=0, offsets, partial angular ranges, poles) is checked by an invariant monitor: dims, face positions bit-for-bit, centres, sizes, ghost sizes, per-cell volume against the closed-form geometric volume (rel 1e-12), positivity, total, and label reachability. Held = on the executions listed in the evidence; SphericalGrid3D theta-factor is a known finding with a mechanistic discriminator.",
-  "note": "trusted: oracle closed forms in pvmon/oracles.py; numpy; exploration only covers generated grids (N<=12 per axis, width ratios <=50)"},
+  "text": "Every mesh constructed by the workload (9 classes x both constructor forms x seeded face families incl. r0=0, offsets, partial angular ranges, poles) is checked by an invariant monitor: dims, face positions bit-for-bit, centres, sizes, ghost sizes, per-cell volume against the closed-form geometric volume (rel 1e-12), positivity, total, and label reachability. SphericalGrid3D theta-factor is a known finding with a mechanistic discriminator.",
+  "note": _NOTE},
+ {"id": "C11", "ref": "DESIGN.md 3/C11",
+  "technique": "runtime monitoring: face-by-face post-conditions on the five mean functions vs width-weighted oracle formulas, locality probes, 1D-vs-nD agreement",
+  "text": "Every face value returned by linearMean/arithmeticMean/geometricMean/harmonicMean/upwindMean is compared with the oracle's formula from the two adjacent cells (bounds, ordering H<=G<=A, constants, linear exactness at face positions, donor selection incl. inflow boundary value and u=0), locality is probed by perturbing cells, and nD results are compared with the 1D routine on embedded fields incl. exact zeros.",
+  "note": _NOTE},
+ {"id": "C13", "ref": "DESIGN.md 3/C13",
+  "technique": "runtime monitoring: post-condition on every limiter evaluation vs exact-rational published forms; finiteness monitor on the TVD term over enumerated integer fields",
+  "text": "All 16 limiters are evaluated on a dense grid, powers of ten to +-1e100, and the exact rationals (and their float neighbours) where numerators/denominators vanish, in shapes 0-D..3-D, and compared with the published forms in exact rational arithmetic (value, finiteness, psi(1)=1, TVD bounds, clipping); unknown names fall back to SUPERBEE; convectionTVDupwindRHSTerm must be finite for ALL fields with values in {-1,0,1,2} on 1-D grids (enumerated) and sampled on 2-D/3-D.",
+  "note": _NOTE},
+ {"id": "C14", "ref": "DESIGN.md 3/C14",
+  "technique": "runtime monitoring: contracts around every operator call (values vs numpy, operand snapshots, aliasing and cross-modification probes, BC carry-over, ghost consistency)",
+  "text": "Bounded-exhaustive over operator x operand kind x side on all 9 classes for CellVariable and FaceVariable, funceval/celleval/faceeval with 1..8 arguments, copy(), random expression trees: result values bitwise equal to numpy on interiors, operands byte-identical before/after, no shared storage, editing result (values, BC coefficients, periodic flag) leaves operands unchanged and vice versa, result carries the left-most operand's BCs with consistent ghosts.",
+  "note": _NOTE},
+ {"id": "C16", "ref": "DESIGN.md 3/C16",
+  "technique": "runtime monitoring: exhaustive enumeration of requests with table-derived expected outcome (value identity or exception type)",
+  "text": "9 classes x 6 coordinate labels x 3 containers, 6 component labels get+set, every non-empty subset of sides declared periodic x 3 entry points, initial-value shape families, constructor arities 0..7 x 3 argument styles, BoundaryFace coefficient types, 17 kinds of unknown term objects; and every documented form for N in 1..4 per axis must run the full API without raising.",
+  "note": _NOTE},
 ]
+_REASON = "check under construction in this session (runtime monitor not yet registered)"
 NOT_APPLICABLE = [
- {"property_id": "C%02d" % i, "reason": "check under construction in this session (runtime monitor not yet registered)"}
+ {"property_id": "C%02d" % i, "reason": _REASON}
  for i in range(1, 18) if "C%02d" % i not in [c["id"] for c in CHECKS]
 ]
